@@ -134,7 +134,7 @@ fn dynprog(x0: T, x1: T) -> Goal<U, E> {
 /// an answer as observed: patterns of x0 and x1 over free variables 0.., and the disequalities (each a list of
 /// pairs that must not all be equal)
 #[derive(Debug, Clone)]
-struct Ans { x: [P; 2], nfree: usize, diseqs: Vec<Vec<(P, P)>>, text: String }
+struct Ans { x: [P; 2], nfree: usize, diseqs: Vec<Vec<(P, P)>>, text: String, c03: Vec<(&'static str, String)> }
 
 fn to_pat(t: &T, free: &mut Vec<T>) -> Result<P, String> {
     use proto_vulcan::lterm::LTermInner;
@@ -169,7 +169,42 @@ fn run_real(prog: &[A]) -> Result<Vec<Ans>, String> {
         let text = format!("x0={} x1={} where {:?}", showp(&x[0]).replace('x', "v"), showp(&x[1]).replace('x', "v"),
                            diseqs.iter().map(|d| d.iter().map(|(k, v)| format!("{}!={}", showp(k).replace('x', "v"), showp(v).replace('x', "v"))).collect::<Vec<_>>().join(" or ")).collect::<Vec<_>>());
         let _ = nq;
-        out.push(Ans { x, nfree: free.len(), diseqs, text });
+        // ---- C03: the answer is closed and carries its relevant constraints
+        let mut c03: Vec<(&'static str, String)> = vec![];
+        fn vars_of(t: &T, out: &mut Vec<T>) {
+            use proto_vulcan::lterm::LTermInner;
+            match t.as_ref() { LTermInner::Var(_, _) => if !out.contains(t) { out.push(t.clone()) }, LTermInner::Cons(h, tl) => { vars_of(h, out); vars_of(tl, out); } _ => {} }
+        }
+        let mut term_vars: Vec<T> = vec![];
+        vars_of(&r.x0.0, &mut term_vars); vars_of(&r.x1.0, &mut term_vars);
+        // (a) every variable left in an answer term is a reified `_` variable
+        if let Some(v) = term_vars.iter().find(|v| !v.is_any()) { c03.push(("unreified-term", format!("{:?} in the answer terms", v))); }
+        // (b) the reported constraints mention only reified variables of this answer
+        for c in r.x0.1.iter() {
+            if let Some(d) = c.downcast_ref::<DisequalityConstraint<U, E>>() {
+                let mut cv: Vec<T> = vec![];
+                for (k, v) in d.smap_ref().iter() { vars_of(k, &mut cv); vars_of(v, &mut cv); }
+                if let Some(v) = cv.iter().find(|v| !v.is_any()) { c03.push(("raw-variable-in-constraint", format!("{:?} in {:?}", v, d.smap_ref()))); }
+                else if let Some(v) = cv.iter().find(|v| !term_vars.contains(v)) { c03.push(("foreign-variable-in-constraint", format!("{:?} (not in the answer terms) in {:?}", v, d.smap_ref()))); }
+            }
+        }
+        // (d) asking a result for its constraints returns every reported constraint that mentions a reified variable
+        // occurring (at any depth) in that result
+        for (name, res) in [("x0", &r.x0), ("x1", &r.x1)] {
+            let mut mine: Vec<T> = vec![]; vars_of(&res.0, &mut mine);
+            let got: Vec<String> = { let mut g: Vec<String> = res.constraints().map(|c| format!("{:?}", c)).collect(); g.sort(); g };
+            let mut want: Vec<String> = vec![];
+            for c in res.1.iter() {
+                if let Some(d) = c.downcast_ref::<DisequalityConstraint<U, E>>() {
+                    let mut cv: Vec<T> = vec![];
+                    for (k, v) in d.smap_ref().iter() { vars_of(k, &mut cv); vars_of(v, &mut cv); }
+                    if cv.iter().any(|v| mine.contains(v)) { want.push(format!("{:?}", c)); }
+                }
+            }
+            want.sort();
+            if got != want { c03.push(("relevant", format!("{}: constraints() gives {:?}, the constraints that mention a variable of {} are {:?}", name, got, res.0, want))); }
+        }
+        out.push(Ans { x, nfree: free.len(), diseqs, text, c03 });
     }
     Ok(out)
 }
@@ -237,6 +272,9 @@ fn check_one(rep: &mut Report, prog: &[A], all_perms: bool) {
             Err(e) => rep.fail("tree-program", inp, format!("{} ground solutions", exp.len()), e, "panic"),
             Ok(Err(e)) => rep.fail("tree-program", inp, format!("{} ground solutions", exp.len()), e, cls),
             Ok(Ok(answers)) => {
+                // C03: closed answers with their relevant constraints
+                rep.case("reified", inp.clone());
+                for a in &answers { for (cl, what) in &a.c03 { rep.fail("reified", inp.clone(), "an answer over reified variables only, whose results return every constraint that mentions them".into(), format!("{}; answer {}", what, a.text), cl); } }
                 // C09 (deterministic): a second run gives the same sequence of answers (up to the order inside the
                 // constraint sets, which `text` has sorted, and the numbering of reified variables, which it hides)
                 rep.case("determinism", inp.clone());
